@@ -330,7 +330,7 @@ Proof.
         apply is_pc_V5 in Hp. subst. left. exists j. apply (step_of s j V5 I Hj). intros; simpl. rewrite B. simpl. discriminate.
       * assert (0 < cnt isV4 (thr s)) as P by lia. apply cnt_pos in P. destruct P as (j&pc&Hj&Hp).
         apply is_pc_V4 in Hp. subst. apply (v4_progress s j I B Hj).
-        destruct (arun s); [right | now left]. destruct (astop s); simpl in *; auto. lia.
+        destruct (arun s); [right | now left]. destruct (astop s); simpl in W2; auto; lia.
   - (* C0 *) destruct (close_l s) as [h|] eqn:C; [eapply close_holder_progress; eauto|].
     left. exists i. apply (step_of s i C0 I Hin). intros; simpl. rewrite C. simpl. discriminate.
   - (* C1 *) left. exists i. apply (step_of s i C1 I Hin). intros; simpl. rewrite B. simpl.
